@@ -199,6 +199,8 @@ class Fn:
         if o["k"] == "const":
             if "fn" in o:
                 return "fn " + o["fn"]
+            if "static" in o:
+                return "static " + o["static"]
             return "const " + o["v"] + ": " + o["ty"]
         if o["k"] in ("copy", "move"):
             return self.describe_place(o["p"], depth)
